@@ -1,24 +1,23 @@
 """C02 — Every reported result is delivered exactly once, in order, never after stop.
 
 Two correspondence streams: `poll` (generic `TrialBackend` poll logic + the batch filter of
-`Tuner._process_new_results`, driver `Drivers/Poll.lean`) is the main stream of this module;
-`sim` (simulator backend, driver `Drivers/Sim.lean`) runs in `extra` through a second,
-synthetic module object."""
+`Tuner._process_new_results`, driver `Drivers/Poll.lean`) and `sim` (simulator backend, driver
+`Drivers/Sim.lean`); a case names its stream in `spec["stream"]` (default `poll`) and its trace
+names the driver (framework: multi-driver cases)."""
 import json
 import os
-import random
-import sys
-import types
-from fractions import Fraction
+from fractions import Fraction  # noqa: F401
 
 import framework
 from streams import poll, sim
-from streams.poll import compare  # noqa: F401
 
 PID = "C02"
 LEVEL = "proof"
 LEAN_TARGETS = ["SyneTune.Props.C02"]
 DRIVER = "SyneTune/Drivers/Poll.lean"
+SIM_DRIVER = "SyneTune/Drivers/Sim.lean"
+COMPARE = {DRIVER: poll.compare, SIM_DRIVER: sim.compare}
+compare = poll.compare
 THEOREMS = [
     "SyneTune.C02.poll_prefix",
     "SyneTune.C02.poll_complete",
@@ -26,6 +25,7 @@ THEOREMS = [
     "SyneTune.C02.poll_resume_fresh_partial",
     "SyneTune.C02.poll_resume_fresh_counterexample",
     "SyneTune.C02.sim_prefix",
+    "SyneTune.C02.sim_complete",
     "SyneTune.C02.sim_nothing_after_decision_partial",
     "SyneTune.C02.sim_resume_fresh_partial",
     "SyneTune.C02.sim_resume_fresh_counterexample",
@@ -100,12 +100,24 @@ def gen_cases(rng, tier):
                   "p_window": rng.choice([0.0, 0.3, 0.6]), "direct_cmd": rng.choice([0.0, 0.15]),
                   "bad": rng.choice([0.0, 0.05]), "stop_all": 0.5},
         }
+    n = 100 if tier == "quick" else 2000
+    for _ in range(n):
+        yield {
+            "stream": "sim",
+            "ctor": sim.gen_ctor(rng),
+            "np_seed": rng.randrange(2 ** 31),
+            "seed": rng.randrange(10 ** 9),
+            "steps": rng.choice([20, 40, 60]) if tier == "quick" else rng.choice([30, 60, 120, 250]),
+            "n_workers": rng.randint(1, 4),
+            "p": {"p_pause": rng.choice([0.2, 0.35]), "p_stop": rng.choice([0.05, 0.1]),
+                  "p_resume_now": rng.choice([0.0, 0.3, 0.6]), "odd_fetch": rng.choice([0.0, 0.1]), "bad": 0.0},
+        }
 
 
 def corpus():
     p = os.path.join(os.path.dirname(__file__), "..", "corpus", "c02.json")
     extra_cases = json.load(open(p)) if os.path.exists(p) else []
-    return [STALE_HISTORY] + extra_cases
+    return [STALE_HISTORY, SIM_STALE_HISTORY] + extra_cases
 
 
 # ---------------------------------------------------------------------------------
@@ -151,10 +163,11 @@ def poll_monitor(events):
                                 "detail": {"event": k, "op": op}})
             # completed on its own and polled: everything written must have been returned
             for t, st in o.get("status", []):
-                if st == "Completed" and n_fetched.get(t, 0) != n_emitted.get(t, 0):
+                r = cur.get(t, 0)
+                if st == "Completed" and len(fetched.get((t, r), [])) != emitted.get((t, r), 0):
                     out.append({"signature": "c02:completed-but-results-missing", "what":
-                                f"trial {t} polled as Completed, {n_emitted.get(t, 0)} reports written, {n_fetched.get(t, 0)} returned",
-                                "detail": {"event": k, "op": op}})
+                                f"trial {t} polled as Completed: its run {r} wrote {emitted.get((t, r), 0)} reports, "
+                                f"{len(fetched.get((t, r), []))} returned", "detail": {"event": k, "op": op}})
         if op["op"] == "loop":
             handed = o.get("handed", [])
             if len(handed) < len(o.get("delivered", [])):
@@ -265,7 +278,7 @@ def nontrivial(trace):
 
 
 # ---------------------------------------------------------------------------------
-# second stream (simulator), run from `extra`
+# second stream (simulator)
 
 
 def fill_sim_constants(spec):
@@ -283,41 +296,10 @@ def run_impl_sim(spec):
     t = sim.run_scenario(spec)
     mon, resumes = sim_monitor(spec, t)
     hist = {"sim:" + k: v for k, v in t["hist"].items()}
-    return {"lines": t["lines"], "monitor": mon, "meta": {"hist": hist, "resumes": resumes, "hidden": 0}}
-
-
-simpart = types.ModuleType("props.c02_simpart")
-simpart.PID = PID
-simpart.DRIVER = "SyneTune/Drivers/Sim.lean"
-simpart.run_impl = run_impl_sim
-simpart.compare = sim.compare
-simpart.nontrivial = nontrivial
-sys.modules["props.c02_simpart"] = simpart
-
-
-def gen_sim_cases(rng, tier):
-    n = 100 if tier == "quick" else 2000
-    for _ in range(n):
-        yield {
-            "stream": "sim",
-            "ctor": sim.gen_ctor(rng),
-            "np_seed": rng.randrange(2 ** 31),
-            "seed": rng.randrange(10 ** 9),
-            "steps": rng.choice([20, 40, 60]) if tier == "quick" else rng.choice([30, 60, 120, 250]),
-            "n_workers": rng.randint(1, 4),
-            "p": {"p_pause": rng.choice([0.2, 0.35]), "p_stop": rng.choice([0.05, 0.1]),
-                  "p_resume_now": rng.choice([0.0, 0.3, 0.6]), "odd_fetch": rng.choice([0.0, 0.1]), "bad": 0.0},
-        }
+    return {"lines": t["lines"], "driver": SIM_DRIVER, "monitor": mon,
+            "meta": {"hist": hist, "resumes": resumes, "hidden": 0}}
 
 
 def extra(ctx):
-    rng = random.Random(ctx.seed * 7919 + 23)
-    old = ctx.mod
-    ctx.mod = simpart
-    try:
-        framework.run_cases(ctx, [SIM_STALE_HISTORY], "sim-corpus")
-        framework.run_cases(ctx, list(gen_sim_cases(rng, ctx.tier)), "sim-generated")
-    finally:
-        ctx.mod = old
     ctx.notes["streams"] = ["poll (Drivers/Poll.lean)", "sim (Drivers/Sim.lean)"]
     ctx.notes["lean_counterexamples_replayed"] = [STALE_HISTORY["lean_counterexample"], SIM_STALE_HISTORY["lean_counterexample"]]
